@@ -205,6 +205,8 @@ pub fn flat_pipes() -> Vec<Pipe> {
   use NoteSpec::{C, N};
   let mut out = vec![];
   let kinds = [
+    // boundary: no inner observable is ever admitted
+    FlatKind::MergeAll(0),
     FlatKind::MergeAll(1),
     FlatKind::MergeAll(2),
     FlatKind::ConcatAll,
